@@ -34,6 +34,10 @@ func (ks KeySet) Foreach(fn func(Key)) {
 }
 
 func (ks KeySet) Exists(k Key) bool {
+	if ks.head == nil {
+		// Empty key set. Must not be confused with a set holding the empty key.
+		return false
+	}
 	if ks.head.Equal(k) {
 		return true
 	}
